@@ -335,6 +335,3 @@ Section IndexLemmas.
 
 End IndexLemmas.
 
-Print Assumptions arz_assemble_nth.
-Print Assumptions avz_place_nth.
-Print Assumptions decimate_nth.
